@@ -75,7 +75,8 @@ def forms(tmp, tag, text, fmt, stated):
     path = os.path.join(tmp, "%s.%s" % (tag, ext))
     with open(path, "w", encoding="utf-8") as f:
         f.write(text)
-    out = [("path", lambda: path), ("file-uri", lambda: "file://" + path),
+    out = [("path", lambda: path), ("file-uri", lambda: "file://" + path), ("file-uri-localhost", lambda: "file://localhost" + path),
+           ("file-uri-one-slash", lambda: "file:" + path),
            ("open-binary", lambda: open(path, "rb")), ("open-text", lambda: open(path, "r", encoding="utf-8")),
            ("str", lambda: text), ("bytes", lambda: text.encode("utf-8"))]
 
@@ -90,6 +91,13 @@ def forms(tmp, tag, text, fmt, stated):
         f.read()
         return f
     out += [("open-binary-written", written_buffer), ("open-binary-read", read_handle)]
+    if stated:
+        # a stated format outranks what the file name suggests
+        wrong = {"turtle": "rdf", "xml": "ttl", "nt": "xml", "json-ld": "ttl", "n3": "rdf", "trig": "nt", "nquads": "xml", "hext": "ttl"}.get(fmt, "rdf")
+        mpath = os.path.join(tmp, "%s_misnamed.%s" % (tag, wrong))
+        with open(mpath, "w", encoding="utf-8") as f:
+            f.write(text)
+        out += [("path-misnamed", lambda: mpath), ("file-uri-misnamed", lambda: "file://" + mpath), ("open-binary-misnamed", lambda: open(mpath, "rb"))]
     return out
 
 
